@@ -8,8 +8,6 @@ import (
 	"strconv"
 	"strings"
 
-	"github.com/pkg/errors"
-
 	"github.com/xelaj/mtproto/internal/mtproto/objects"
 )
 
@@ -68,7 +66,8 @@ func TryExpandError(errStr string) (nativeErrorName string, additionalData any) 
 	var choosedPrefixSuffix *prefixSuffix
 
 	for _, errCase := range specificErrors {
-		if strings.HasPrefix(errStr, errCase.prefix) && strings.HasSuffix(errStr, errCase.suffix) {
+		if len(errStr) >= len(errCase.prefix)+len(errCase.suffix) &&
+			strings.HasPrefix(errStr, errCase.prefix) && strings.HasSuffix(errStr, errCase.suffix) {
 			choosedPrefixSuffix = &errCase //nolint:gosec cause we need nil if not found
 			break
 		}
@@ -83,9 +82,13 @@ func TryExpandError(errStr string) (nativeErrorName string, additionalData any) 
 
 	switch v := choosedPrefixSuffix.kind; v { //nolint:exhaustive others will panic
 	case reflect.Int:
-		var err error
-		additionalData, err = strconv.Atoi(trimmedData)
-		check(errors.Wrap(err, "error of parsing expected int value"))
+		value, err := strconv.Atoi(trimmedData)
+		if err != nil {
+			// parameter is absent, not a number or out of range: it's not that specific error, so
+			// returning it as common one instead of panicking in caller's goroutine
+			return errStr, nil
+		}
+		additionalData = value
 
 	case reflect.String:
 		additionalData = trimmedData
